@@ -320,6 +320,28 @@ def run(chk):
     ent = _meth(pr, IR, "__enter__")
     ok = any(isinstance(c, ast.Call) and last_attr(c.func) == "open" and _arg(c, 2) == "self.bulk_size" for c in walk_body(ent))
     chk.ob("O3.5", "the slice is opened with the reader's bulk size", ok, ent, "")
+    # the reader factory hands batch size and bulk size to each reader under the parameter of the same meaning (both are ints: a swap type-checks and only shows with batch != bulk);
+    # each reader class passes them on to the base class in the same roles (the source-only reader doubles the bulk size: two lines per document)
+    cdr_ = pr.func("create_default_reader")
+    base_init = pr.methods(IR).get("__init__")
+    n_ctor = 0
+    for cname in ("SourceOnlyIndexDataReader", "MetadataIndexDataReader"):
+        rc_ = pr.cls(cname)
+        rinit = pr.methods(rc_).get("__init__")
+        for c in [c for c in source.calls_in(cdr_) if last_attr(c.func) == cname]:
+            n_ctor += 1
+            b_ = bind_args(c, rinit)
+            ok = u(b_.get("batch_size")) == "batch_size" and u(b_.get("bulk_size")) == "bulk_size" and {"batch_size", "bulk_size"} <= set(params_of(cdr_))
+            chk.ob("O3.5", f"{cname}(...) gets batch_size := batch_size, bulk_size := bulk_size", ok, c, f"batch_size={u(b_.get('batch_size'))} bulk_size={u(b_.get('bulk_size'))}",
+                   key=f"{_P}:create_default_reader:{cname}:sizes")
+        sup = [c for c in source.calls_in(rinit) if isinstance(c.func, ast.Attribute) and c.func.attr == "__init__" and isinstance(c.func.value, ast.Call) and dotted(c.func.value.func) == "super"] if rinit is not None else []
+        if sup and base_init is not None:
+            sb = bind_args(sup[0], base_init)
+            want_bulk = ("bulk_size * 2", "2 * bulk_size") if cname == "SourceOnlyIndexDataReader" else ("bulk_size",)
+            ok = u(sb.get("batch_size")) == "batch_size" and u(sb.get("bulk_size")) in want_bulk
+            chk.ob("O3.5", f"{cname} passes (batch size, bulk size{' x 2 lines' if len(want_bulk) == 2 else ''}) on to the base reader in the same roles", ok, sup[0],
+                   f"batch_size={u(sb.get('batch_size'))} bulk_size={u(sb.get('bulk_size'))}", key=f"{_P}:{cname}.__init__:sizes")
+    chk.ob("O3.5", "reader constructions located in the factory", n_ctor >= 2, cdr_, f"{n_ctor} site(s)")
     bg = pr.func("bulk_generator")
     dd = [x for x in walk_body(bg) if isinstance(x, ast.Dict) and any(source.is_const(k_, "bulk-size") for k_ in x.keys)]
     ok = False
@@ -451,6 +473,11 @@ def run(chk):
     from rules.C14 import offset_table_protocol
 
     offset_table_protocol(chk, io_, "O3.7")
+    from rules.C14 import line_count_rule
+
+    ldr_ = repo.module("esrally/track/loader.py")
+    chk.use(ldr_)
+    line_count_rule(chk, "O3.7", ldr_)
 
     # ---- O3.8 bulk counting and percentage cut-off --------------------------------------------------------------------------------------------------------------
     chk.rule("O3.8", "per file the bulk count is the ceiling division of the slice's documents by the bulk size; total_bulks == ceil(all_bulks * p / 100); params() raises StopIteration at "
